@@ -4,7 +4,13 @@
      (a) the resolved id equals the model's `scope_lookup` on the observed span tree      [model = implementation]
      (b) a message the harness emitted for scenario sc resolves to a REGISTERED id that stands for sc
      (c) every delivered message reaches the registered scenario of its id (with its retries), or — id unknown — a
-         registered one.                                                                   [(b), (c): the property] *)
+         registered one.                                                                   [(b), (c): the property]
+   What this check does NOT judge (second review, M1): that a message is delivered EXACTLY ONCE and that none is lost — a
+   message delivered three times or never passes here; those clauses, and "between the Started and the result of its step",
+   are judged on the same history by Check/C20Check.v (`c20_ok`). Clause (c) looks the id up in the registry AT DELIVERY
+   TIME: a message whose scenario was unregistered before the delivery may go to any registered scenario (the real
+   collector's broadcast rule); that the runner forwards a span's logs BEFORE `finish_scenario` is again the ordering
+   judged by C20Check. *)
 From CV Require Import Model.Base Model.Events Model.TracingAttr Check.Verdict.
 
 Record acase20 := mk_acase20 { a20_recs : list arec }.
